@@ -3,7 +3,7 @@
    The model (Model/RateLimit.v) is tied to the source by Proofs/RateLimitTie.v (Gen = Model by
    reflexivity; constants and the chunk-size formula at the rate-limited sites as source facts). *)
 From Coq Require Import QArith Lqa List Bool ZArith String.
-From Replicat Require Import Gen.RateLimitGen Model.RateLimit Proofs.RateLimitProofs Proofs.RateLimitTie Proofs.RateLimitMulti.
+From Replicat Require Import Gen.RateLimitGen Model.RateLimit Proofs.RateLimitProofs Proofs.RateLimitTie Proofs.RateLimitMulti Proofs.RateLimitMultiBound.
 Import ListNotations.
 Open Scope Q_scope.
 
@@ -67,6 +67,17 @@ Theorem C20_wrapper_transparent : forall (F A D S R : Type)
 Proof. exact (@wrapper_transparent). Qed.
 Print Assumptions C20_wrapper_transparent.
 
+(* several streams (thread ids < n) on one limiter, every underlying call of zero latency (the in-memory payloads of
+   snapshot and restore), any valid lock order, exact sleep: bytes in any window <= L*T + L*PL + (n+1)*dmax.
+   This is the multi-stream statement with the finding's inputs (slow overlapping I/O) excluded by m_lat == 0. *)
+Theorem C20_multi_stream_window_bound_partial : forall PL TH L quarter dmax (n : nat) cs t T,
+  0 <= TH -> TH + quarter <= PL -> 0 < L -> 0 <= dmax -> dmax <= L * quarter ->
+  Forall (msize_in dmax) cs -> Forall (fun c => m_lat c == 0) cs -> Forall (fun c => (m_thread c < n)%nat) cs ->
+  mvalid PL TH L mstate0 cs = true -> 0 <= T ->
+  window_bytes t T (mrun PL TH L mstate0 cs) <= L * T + L * PL + (inject_Z (Z.of_nat n) + 1) * dmax.
+Proof. exact multi_stream_window_bound. Qed.
+Print Assumptions C20_multi_stream_window_bound_partial.
+
 (* several streams whose underlying I/O is slow and overlaps: the bound fails (known finding) *)
 Theorem C20_multi_stream_slow_io_refuted :
   exists (PL TH L dmax T t : Q) (n : nat) (cs : list mcall),
@@ -92,3 +103,23 @@ Proof.
   split; [vm_compute; reflexivity|]. split; [vm_compute; reflexivity|].
   split; repeat constructor; cbn; try (apply Qle_bool_iff; reflexivity).
 Qed.
+
+(* non-vacuity of the multi-stream hypotheses: two threads, zero latency, a valid lock order in which thread 1 waits
+   for the lock while thread 0 sleeps *)
+Definition demo_mcalls : list mcall :=
+  [ {| m_thread := 0; m_begin := 0; m_lat := 0; m_size := 32; m_lock := 0 |};
+    {| m_thread := 1; m_begin := 0; m_lat := 0; m_size := 32; m_lock := 0 |};
+    {| m_thread := 0; m_begin := 0; m_lat := 0; m_size := 32; m_lock := 0 |};
+    {| m_thread := 1; m_begin := 0; m_lat := 0; m_size := 32; m_lock := 0 |};
+    {| m_thread := 0; m_begin := 0; m_lat := 0; m_size := 32; m_lock := 0 |};
+    {| m_thread := 1; m_begin := 0; m_lat := 0; m_size := 32; m_lock := 0 |};
+    {| m_thread := 0; m_begin := 0; m_lat := 0; m_size := 32; m_lock := 0 |};
+    {| m_thread := 1; m_begin := 0; m_lat := 0; m_size := 32; m_lock := 0 |};
+    {| m_thread := 0; m_begin := 0; m_lat := 0; m_size := 32; m_lock := 0 |};
+    {| m_thread := 1; m_begin := 9 # 32; m_lat := 0; m_size := 32; m_lock := 9 # 32 |} ].
+Example C20_demo_multi :
+  mvalid PAUSE_LIMIT PAUSE_THRESHOLD_SECONDS 1024 mstate0 demo_mcalls = true
+  /\ map (fun ev => Qred (ev_sleep ev)) (mrun PAUSE_LIMIT PAUSE_THRESHOLD_SECONDS 1024 mstate0 demo_mcalls)
+     = [0; 0; 0; 0; 0; 0; 0; 0; 9 # 32; 0]
+  /\ window_bytes 0 0 (mrun PAUSE_LIMIT PAUSE_THRESHOLD_SECONDS 1024 mstate0 demo_mcalls) == 288.
+Proof. split; [vm_compute; reflexivity|]. split; vm_compute; reflexivity. Qed.
